@@ -76,6 +76,12 @@ func c17RetryHedge(rep *vk.Report, idx int) {
 		} else {
 			plainEntries.Add(1)
 		}
+		// every invocation that fails returns (0, E1): under retry>hedge an attempt of a later round - the retried attempt and
+		// the hedges started next to it alike - is shown that failure as the last result
+		if nest == "retry>hedge" && exec.Retries() >= 1 && (exec.LastError() != errE1 || exec.LastResult() != 0) {
+			msg := fmt.Sprintf("LastResult/LastError: invocation %d (IsHedge=%v, Retries=%d) of a round that follows a failed round sees last=(%d,%v), want (0,E1)", k, isHedge, exec.Retries(), exec.LastResult(), exec.LastError())
+			bad.CompareAndSwap(nil, &msg)
+		}
 		if isHedge && exec.IsFirstAttempt() {
 			msg := "an attempt reports IsHedge and IsFirstAttempt at once"
 			bad.CompareAndSwap(nil, &msg)
@@ -135,7 +141,9 @@ func c17RetryHedge(rep *vk.Report, idx int) {
 		return
 	}
 	if s := bad.Load(); s != nil {
-		if strings.Contains(*s, "IsHedge") {
+		if strings.HasPrefix(*s, "LastResult/LastError") {
+			viol("last-result-not-shown-to-attempt", *s)
+		} else if strings.Contains(*s, "IsHedge") {
 			viol("ishedge-not-a-fact-about-the-attempt", *s)
 		} else {
 			viol("counter-ahead-of-events", *s)
